@@ -58,6 +58,7 @@ func runConfine(r *run) error {
 		prefix func(outside string) string // name prefix leading to the outside directory
 		pre    []hEntry                    // entries sent before the hostile one
 		subdir string                      // daemon: module subdirectory argument
+		bare   string                      // if set: the hostile entry is named exactly this (a directory name ending in a slash)
 	}
 	dirE := func(n string) hEntry {
 		return hEntry{NameHex: hx(n), Mode: sIFDIR | 0o755, Len: 4096, Mtime: victimMtime}
@@ -73,6 +74,10 @@ func runConfine(r *run) error {
 			pre: []hEntry{{NameHex: hx("newlink"), Mode: sIFLNK | 0o777, Mtime: victimMtime, LinkHex: hx("../outside")}}},
 		{name: "symlink-then-dir-in-same-list", prefix: func(string) string { return "nl2/" },
 			pre: []hEntry{{NameHex: hx("nl2"), Mode: sIFLNK | 0o777, Mtime: victimMtime, LinkHex: hx("../outside")}, dirE("nl2")}},
+		{name: "existing-symlink-trailing-slash", prefix: func(string) string { return "link/" }, bare: "link/"},
+		{name: "nested-existing-symlink-trailing-slash", prefix: func(string) string { return "sub/up/" }, pre: []hEntry{dirE("sub")}, bare: "sub/up/"},
+		{name: "symlink-in-same-list-trailing-slash", prefix: func(string) string { return "newlink/" }, bare: "newlink/",
+			pre: []hEntry{{NameHex: hx("newlink"), Mode: sIFLNK | 0o777, Mtime: victimMtime, LinkHex: hx("../outside")}}},
 		{name: "daemon-subdir-symlink", prefix: func(string) string { return "" }, subdir: "link"},
 		{name: "daemon-subdir-symlink-slash", prefix: func(string) string { return "" }, subdir: "link/"},
 		{name: "daemon-subdir-dotdot", prefix: func(string) string { return "" }, subdir: "../outside"},
@@ -116,7 +121,7 @@ func runConfine(r *run) error {
 	n := 0
 	add := func(side string, v vector, tgt string, k kind, args []string) error {
 		n++
-		if r.tier != "thorough" && (n+int(r.seed))%3 != 0 && v.subdir == "" {
+		if r.tier != "thorough" && (n+int(r.seed))%3 != 0 && v.subdir == "" && v.bare == "" {
 			return nil
 		}
 		id := fmt.Sprintf("cf%d-%s", n, side)
@@ -129,6 +134,14 @@ func runConfine(r *run) error {
 		// parents of the target, as a real sender would list them
 		if strings.Contains(tgt, "/") && !strings.HasPrefix(k.name, "directory") {
 			es = append(es, dirE(v.prefix(outside)+filepath.Dir(tgt)))
+		}
+		if v.bare != "" {
+			// the entry itself is the symlinked directory, named with a trailing slash: only directory entries make sense
+			if tgt != "victim.txt" || !strings.HasPrefix(k.name, "directory") {
+				os.RemoveAll(root)
+				return nil
+			}
+			name = v.bare
 		}
 		es = append(es, k.mk(name))
 		sp := sessionSpec{Kind: "hostile", ID: id, Args: args, Dest: dest, TimeoutMs: 20000,
